@@ -40,15 +40,15 @@ const (
 
 // Fault is one entry of the explicit fault plan.
 type Fault struct {
-	Kind  string `json:"kind"`            // "err", "short", "crash", "stall"
-	Op    string `json:"op"`              // operation kind, "" = any
-	FT    int    `json:"ft"`              // storage.FileType mask, 0 = any
-	Nth   int    `json:"nth"`             // fires at the Nth matching event (1-based) ...
-	Count int    `json:"count,omitempty"` // ... and the following Count-1 matching events; <0 = until healed
-	Epoch int    `json:"epoch"`           // epoch the fault belongs to (-1 = any)
-	After bool   `json:"after,omitempty"` // crash only: after the operation's effect instead of before
-	Img   uint64 `json:"img,omitempty"`   // crash only: seed for the durable-image variant
-	StallMs int  `json:"stall_ms,omitempty"`
+	Kind    string `json:"kind"`            // "err", "short", "crash", "stall"
+	Op      string `json:"op"`              // operation kind, "" = any
+	FT      int    `json:"ft"`              // storage.FileType mask, 0 = any
+	Nth     int    `json:"nth"`             // fires at the Nth matching event (1-based) ...
+	Count   int    `json:"count,omitempty"` // ... and the following Count-1 matching events; <0 = until healed
+	Epoch   int    `json:"epoch"`           // epoch the fault belongs to (-1 = any)
+	After   bool   `json:"after,omitempty"` // crash only: after the operation's effect instead of before
+	Img     uint64 `json:"img,omitempty"`   // crash only: seed for the durable-image variant
+	StallMs int    `json:"stall_ms,omitempty"`
 
 	seen  int
 	fired int
@@ -173,6 +173,9 @@ func (d *Disk) event(op string, fd storage.FileDesc, n int) *Fault {
 		f.fired++
 		d.St.Fired[f.Kind+"/"+op+"/"+ftName(fd.Type)]++
 		d.LastFaultAt = d.St.Events
+		if d.KeepTrace {
+			d.Trace = append(d.Trace, fmt.Sprintf("   ^^^ FAULT %s fired on %s %s", f.Kind, op, fd))
+		}
 		simrt.Progress() // bounded liveness is judged from the last fault onwards
 		if f.Kind == "stall" {
 			ms := f.StallMs
